@@ -295,6 +295,7 @@ func c09(c *Ctx) {
 	if fn := c.Fn(resutilPkg, "", "GetPodNUMARequestAndUsage"); fn != nil {
 		c09zones(c, fn)
 	}
+	c09validate(c)
 	if fn := c.Fn(resutilPkg, "", "CalculateMidResourceByPolicy"); fn != nil {
 		c09mid(c, fn, true)
 	}
@@ -706,5 +707,95 @@ func c09degrade(c *Ctx, fn *ssa.Function) {
 			}
 		}
 		r.Check(ok, "PATH", fkey(rs)+"/Reset=true", c.Pos(rs.Pos()), "every item is marked Reset=true", "Reset() no longer marks the items Reset=true: stale metrics freeze the old value")
+	}
+}
+
+// negFacts assumes, for a pointer-to-integer value p: p != nil and *p < 0.
+func negFacts(fn *ssa.Function, isP func(ssa.Value) bool, f an.Facts, depth int) int {
+	n := 0
+	for _, b := range fn.Blocks {
+		for _, in := range b.Instrs {
+			switch x := in.(type) {
+			case *ssa.BinOp:
+				if isP(x.X) && an.IsNilConst(x.Y) {
+					if x.Op == token.EQL {
+						f[x] = an.False
+						n++
+					} else if x.Op == token.NEQ {
+						f[x] = an.True
+						n++
+					}
+				}
+				if ld, ok := x.X.(*ssa.UnOp); ok && ld.Op == token.MUL && isP(ld.X) {
+					if k, isC := constIntOf(x.Y); isC {
+						switch {
+						case (x.Op == token.GEQ && k >= 0) || (x.Op == token.GTR && k >= -1):
+							f[x] = an.False
+							n++
+						case (x.Op == token.LSS && k <= 0) || (x.Op == token.LEQ && k <= -1):
+							f[x] = an.True
+							n++
+						}
+					}
+				}
+			case *ssa.Call:
+				callee := x.Call.StaticCallee()
+				if callee == nil || len(callee.Blocks) == 0 || depth <= 0 || callee.Pkg != fn.Pkg {
+					continue
+				}
+				for i, a := range x.Call.Args {
+					if !isP(a) || i >= len(callee.Params) {
+						continue
+					}
+					par := callee.Params[i]
+					cf := an.Facts{}
+					negFacts(callee, func(v ssa.Value) bool { return v == ssa.Value(par) }, cf, depth-1)
+					reach := an.Explore(callee, nil, cf, nil)
+					never := len(reach.Returns()) > 0
+					for _, ret := range reach.Returns() {
+						if len(ret.Results) != 1 || reach.EvalAt(ret.Results[0], ret) != an.False {
+							never = false
+						}
+					}
+					if never {
+						f[x] = an.False
+						n++
+					}
+				}
+			}
+		}
+	}
+	return n
+}
+
+// c09validate: the configuration validation rejects negative percentages (the formulas rely on it).
+func c09validate(c *Ctx) {
+	r := c.R
+	r.Rule("VALIDATE: sloconfig.IsColocationStrategyValid cannot return true for a strategy in which one of the percentage fields the batch/mid formulas multiply capacity with (Batch*ThresholdPercent, Mid*ThresholdPercent, MidUnallocatedPercent, *ReclaimThresholdPercent, MidStatic*ReservedPercent) is set and negative - decided per field by assuming 'field != nil' and '*field < 0' (also inside in-package helpers the field is passed to) and evaluating every return")
+	fn := c.Fn("pkg/util/sloconfig", "", "IsColocationStrategyValid")
+	if fn == nil {
+		return
+	}
+	fields := []string{"BatchCPUThresholdPercent", "BatchMemoryThresholdPercent", "MidCPUThresholdPercent", "MidMemoryThresholdPercent", "MidUnallocatedPercent",
+		"CPUReclaimThresholdPercent", "MemoryReclaimThresholdPercent", "MidStaticCPUReservedPercent", "MidStaticMemoryReservedPercent"}
+	for _, fld := range fields {
+		isP := func(v ssa.Value) bool {
+			ld, ok := v.(*ssa.UnOp)
+			if !ok || ld.Op != token.MUL {
+				return false
+			}
+			fa, ok := ld.X.(*ssa.FieldAddr)
+			return ok && fieldNameOf(fa) == fld
+		}
+		f := an.Facts{}
+		n := negFacts(fn, isP, f, 2)
+		reach := an.Explore(fn, nil, f, nil)
+		bad := false
+		for _, ret := range reach.Returns() {
+			if reach.EvalAt(ret.Results[0], ret) != an.False {
+				bad = true
+			}
+		}
+		r.Check(n > 0 && !bad, "VALIDATE", fkey(fn)+"/rejects-negative/"+fld, c.Pos(fn.Pos()), "a negative "+fld+" is rejected", sprintf("a strategy with a negative %s can be reported valid (%d tests of the field recognised): the formulas multiply capacity by it, publishing a negative (or cap-less) amount", fld, n))
 	}
 }
